@@ -187,6 +187,20 @@ def run(ck):
                             ck.fail("relabel:exciton-dipoles", "exciton dipole strengths change under relabelling", dict(inp, perm=perm))
                 except Exception as e:
                     ck.fail("raises:relabel", "relabelled build raised %r" % (e,), dict(inp, perm=perm))
+                # the exciton dipole strengths as a user asks for them: dipole_strength() inside the Hamiltonian's eigenbasis, as the first thing
+                # done with the dipole operator there
+                try:
+                    w1, S1 = numpy.linalg.eigh(HH)
+                    if len(set(numpy.round(w1, 9))) == len(w1) and w1[0] == HH[0, 0]:
+                        Dop, Hop = agg.get_TransitionDipoleMoment(), agg.get_Hamiltonian()
+                        with qr.eigenbasis_of(Hop):
+                            got_s = [float(Dop.dipole_strength(0, k)) for k in range(1, len(w1))]
+                        want_s = [float(numpy.sum(numpy.einsum("a,ai->i", S1[:, k], DD[0, :, :]) ** 2)) for k in range(1, len(w1))]
+                        if numpy.abs(numpy.array(got_s) - numpy.array(want_s)).max() > 1e-9 * max(1.0, max(want_s)):
+                            ck.fail("exciton-dipoles:dipole_strength-in-eigenbasis", "dipole_strength(0,k) asked for inside eigenbasis_of(H) is not the strength of the "
+                                    "exciton transition |sum_n c_nk d_n|^2", inp, got_s, want_s)
+                except Exception as e:
+                    ck.fail("raises:dipole_strength-in-eigenbasis", "dipole_strength inside eigenbasis_of raised %r" % (e,), inp)
     multilevel(ck, qr, numpy)
     point_dipole(ck, qr, numpy, const)
     model = ck.drive(DRIVER, lines)
